@@ -322,9 +322,11 @@ def _discover(self, s, variant):
     b0, t0 = _clock(1, variant)
     vb = [((1, 3, 6, 1, 6, 3, 15, 1, 1, 4, 0), values.v_unsigned("counter32", 1).tlv)]
     if variant >= 100:
-        # deviations during discovery: 100.. = a stray Report from another engine with a non-matching msgID first;
+        # deviations during discovery (300.. is handled below): 100.. = a stray Report from another engine with a non-matching msgID first;
         # 200.. = the first probe is lost (time-out) and the probe is repeated
-        if variant < 200:
+        if variant >= 300:
+            pass
+        elif variant < 200:
             other = bytes([cfg.engine_id[0] ^ 0x7F]) + cfg.engine_id[1:] + b"x"
             stray = drivers.reply_for(anon, req, vb, pdu_tag=rb.PDU_REPORT, engine_id=other, boots=5, time=5, flags=0, user="", msg_id=(req.msg_id + 1) & 0x7FFFFFFF)
             w.inject(stray)
@@ -344,7 +346,11 @@ def _discover(self, s, variant):
                 self.problems.append((c, t + " [repeated discovery probe]", self.step_no))
             if req is None or req.request_id is None:
                 return
-    rep = drivers.reply_for(anon, req, vb, pdu_tag=rb.PDU_REPORT, engine_id=cfg.engine_id, boots=b0, time=t0, flags=0, user="")
+    extra = {}
+    if 300 <= variant < 400:
+        # 300.. = the Report's contextEngineID differs from msgAuthoritativeEngineID (legal: RFC 3411 keeps them apart)
+        extra["ctx_engine_id"] = b"\x80\x00\x1f\x88\x04ctx-" + cfg.engine_id[-3:]
+    rep = drivers.reply_for(anon, req, vb, pdu_tag=rb.PDU_REPORT, engine_id=cfg.engine_id, boots=b0, time=t0, flags=0, user="", **extra)
     w.inject(rep)
     out = w.recv("refresh")
     self.api_calls += 1
